@@ -74,6 +74,12 @@ def _petl_special(fa, name, e, args, kw, env):
                 'petl.util.base:RecordsView', 'petl.util.base:DictsView',
                 'petl.util.base:NamedTuplesView'):
         return V(('DATA', src_of(args[0]) if args else '?'))
+    if name == 'petl.util.vis:_vis_overflow':
+        # (bounded list of rows, overflow flag) when a limit is set -- decided
+        # separately on _vis_overflow itself by C02 R2.3; the whole table when
+        # the caller asked for no limit (lookall/displayall, by documentation)
+        el = elements_of(args[0]) if args else VTOP
+        return V(('TUPLE', (V(fresh('list', fa.site(e), depth_trunc(el, 2))), VBOOL)))
     if name == 'petl.util.base:Record':
         # a Record is a tuple copy of the row
         return V(fresh('tuple', fa.site(e), elements_of(args[0]) if args else VTOP))
@@ -256,6 +262,8 @@ def _builtin(fa, b, e, args, kw, env):
     if b == 'enumerate':
         if a0 is None:
             return VTOP
+        if any(a[0] == 'SELFATTR' for a in a0):
+            fa.emit('iter', e, {'arg': a0})
         st = iter_state(a0)
         return V(('ITER', src_of(a0), 'H' if st == 'H' else 'D',
                   V(('TUPLE', (VINT, depth_trunc(elements_of(a0), 2))))))
@@ -346,6 +354,8 @@ def _ext(fa, nm, e, args, kw, env):
     if nm == 'itertools.islice':
         if a0 is None:
             return VTOP
+        if any(tableish(a) or a == SELF for a in a0):
+            fa.emit('iter', e, {'arg': a0})
         itv = to_iter(a0)
         start_pos = None
         if len(e.args) >= 3:
@@ -358,6 +368,15 @@ def _ext(fa, nm, e, args, kw, env):
             # islice(it, *sliceargs): user supplied window; may be empty
             return frozenset(('ITER', a[1], 'D' if a[3] is not None or a[2] == 'D' else 'H', a[3])
                              if a[0] == 'ITER' else a for a in itv)
+        stop = None
+        if len(e.args) == 2:
+            stop = e.args[1]
+        elif len(e.args) >= 3:
+            stop = e.args[2]
+        if stop is not None and not (isinstance(stop, ast.Constant) and stop.value is None):
+            # a finite window: consuming it does not drain the source
+            itv = frozenset(('ITER', 'bounded:' + a[1], a[2], a[3]) if a[0] == 'ITER' and
+                            not a[1].startswith('bounded:') else a for a in itv)
         if start_pos is not None and start_pos >= 1:
             return advance(itv)
         return itv
